@@ -161,7 +161,7 @@ func startsStatement(t token.Type) bool {
 //@ globalinv [table.sound@C02,C03,C05] forallKeys(precedences, func(t token.Type) bool { return precedences[t] == jsLevel(t) && jsLevel(t) != LOWEST })
 //@ globalinv [table.complete@C02,C03,C05] has(precedences, token.ASSIGN) && has(precedences, token.PLUS_ASSIGN) && has(precedences, token.MINUS_ASSIGN) && has(precedences, token.OR) && has(precedences, token.AND) && has(precedences, token.EQ) && has(precedences, token.NOT_EQ) && has(precedences, token.LT) && has(precedences, token.GT) && has(precedences, token.LTE) && has(precedences, token.GTE) && has(precedences, token.PLUS) && has(precedences, token.MINUS) && has(precedences, token.MULTIPLY) && has(precedences, token.DIVIDE) && has(precedences, token.MODULO) && has(precedences, token.INCREMENT) && has(precedences, token.DECREMENT) && has(precedences, token.LPAREN) && has(precedences, token.DOT) && has(precedences, token.LBRACKET)
 
-//@ func init
+//@ func init()
 //@   props C02 C03 C05
 //@   modifies *
 
@@ -169,7 +169,7 @@ func startsStatement(t token.Type) bool {
 // tables are maintained by hand in two packages).
 func lemma_levels_agree(t token.Type) {}
 
-//@ func lemma_levels_agree
+//@ func lemma_levels_agree(t)
 //@   props C03 C02
 //@   ensures [tables.agree@C03] jsLevel(t) == ast.AstLevel(t)
 //@   ensures [constants.agree@C03] LOWEST == ast.PrecedenceLowest && ASSIGNMENT == ast.PrecedenceAssignment && LOGICAL_OR == ast.PrecedenceLogicalOr && LOGICAL_AND == ast.PrecedenceLogicalAnd && EQUALITY == ast.PrecedenceEquality && COMPARISON == ast.PrecedenceComparison && SUM == ast.PrecedenceSum && PRODUCT == ast.PrecedenceProduct && UNARY == ast.PrecedenceUnary && POSTFIX == ast.PrecedencePostfix && CALL == ast.PrecedenceCall && MEMBER == ast.PrecedenceMember
@@ -209,22 +209,22 @@ func slotInfixFn(p *Parser, left ast.Expression) ast.Expression { return nil }
 //@ group infixResult
 //@   ensures [err-on-nil@C11,C13] implies(isNil(result), len(p.errors) > len(old(p.errors)) || isNil(left))
 
-//@ func slotStmtFn
+//@ func slotStmtFn(p)
 //@   props C04 C11 C16
 //@   abstract
 //@   use parseFrame stmtResult
 
-//@ func slotExprFn
+//@ func slotExprFn(p, precedence)
 //@   props C04 C11 C16
 //@   abstract
 //@   use parseFrame
 
-//@ func slotPrefixFn
+//@ func slotPrefixFn(p)
 //@   props C04 C11 C16
 //@   abstract
 //@   use parseFrame
 
-//@ func slotInfixFn
+//@ func slotInfixFn(p, left)
 //@   props C04 C11 C16
 //@   abstract
 //@   use parseFrame
@@ -244,38 +244,38 @@ func lemma_parseFrame_trans(p *Parser) {
 	slotExprFn(p, LOWEST)
 }
 
-//@ func lemma_parseFrame_refl
+//@ func lemma_parseFrame_refl(p)
 //@   props C04 C05 C11 C16
 //@   use parseFrame
 
-//@ func lemma_parseFrame_trans
+//@ func lemma_parseFrame_trans(p)
 //@   props C04 C05 C11 C16
 //@   use parseFrame
 
 // ---- context stack (C16) ----
 
-//@ func (p *Parser) PushContext
+//@ func (p *Parser) PushContext(ctx)
 //@   props C16 C11
 //@   modifies p.contextStack
 //@   ensures [push] sameCtx(p.contextStack, push(old(p.contextStack), ctx))
 
-//@ func (p *Parser) PopContext
+//@ func (p *Parser) PopContext()
 //@   props C16 C11
 //@   modifies p.contextStack
 //@   ensures [pop] implies(len(old(p.contextStack)) > 0, len(p.contextStack) == len(old(p.contextStack))-1 && forall(0, len(p.contextStack), func(i int) bool { return p.contextStack[i] == old(p.contextStack)[i] }))
 //@   ensures [pop.empty] implies(len(old(p.contextStack)) == 0, len(p.contextStack) == 0)
 
-//@ func (p *Parser) CurrentContext
+//@ func (p *Parser) CurrentContext()
 //@   props C16 C11
 //@   ensures [top] result == ite(len(p.contextStack) == 0, GlobalContext, p.contextStack[len(p.contextStack)-1])
 
-//@ func (p *Parser) IsInFunction
+//@ func (p *Parser) IsInFunction()
 //@   props C16 C11
 //@   ensures [member] result == exists(0, len(p.contextStack), func(i int) bool { return p.contextStack[i] == FunctionContext })
 
 // ---- token pump and errors ----
 
-//@ func (p *Parser) NextToken
+//@ func (p *Parser) NextToken()
 //@   props C11 C16 C04
 //@   requires [lexer] p.lexer != nil && lexer.LexInv(p.lexer)
 //@   modifies p.CurrentToken, p.PeekToken
@@ -284,21 +284,21 @@ func lemma_parseFrame_trans(p *Parser) {
 //@   ensures [shift] eq(p.CurrentToken, old(p.PeekToken))
 //@   ensures [origin] lexer.LexTok(p.PeekToken)
 
-//@ func (p *Parser) AddErrorAtToken
+//@ func (p *Parser) AddErrorAtToken(message, tok)
 //@   props C11
 //@   requires [range.token] lexer.LexTok(tok)
 //@   modifies p.errors
 //@   ensures [append] len(p.errors) == len(old(p.errors))+1 && isPrefixErr(old(p.errors), p.errors)
 //@   ensures [range] p.errors[len(old(p.errors))].Range == Range{Start: tok.Start, End: tok.End}
 
-//@ func (p *Parser) AddError
+//@ func (p *Parser) AddError(message)
 //@   props C11
 //@   requires [tok] lexer.LexTok(p.CurrentToken)
 //@   modifies p.errors
 //@   ensures [append] len(p.errors) == len(old(p.errors))+1 && isPrefixErr(old(p.errors), p.errors)
 //@   ensures [range] p.errors[len(old(p.errors))].Range == Range{Start: p.CurrentToken.Start, End: p.CurrentToken.End}
 
-//@ func (p *Parser) ExpectToken
+//@ func (p *Parser) ExpectToken(t)
 //@   props C11 C16
 //@   use parseFrame ctxStable
 //@   ensures [ok] implies(result, eq(p.CurrentToken, old(p.PeekToken)) && p.CurrentToken.Type == t && len(p.errors) == len(old(p.errors)))
@@ -307,7 +307,7 @@ func lemma_parseFrame_trans(p *Parser) {
 // Statement termination. Stated where ECMAScript fixes the answer: an explicit ';' is consumed; end of input and '}'
 // terminate without consuming; after a line break a token that can only begin a statement terminates; on the same
 // line anything else is an error in strict mode. Tolerant mode never records an error here and always continues.
-//@ func (p *Parser) ExpectSemicolonASI
+//@ func (p *Parser) ExpectSemicolonASI()
 //@   props C11 C16 C13 C02
 //@   use parseFrame ctxStable
 //@   ensures [fail] implies(!result, len(p.errors) == len(old(p.errors))+1)
@@ -322,7 +322,7 @@ func lemma_parseFrame_trans(p *Parser) {
 // ---- the parse-function family ----
 
 // Statement dispatch is a function of the current token's type and equals the subset grammar's statement table.
-//@ func baseParseStatement
+//@ func baseParseStatement(p)
 //@   props C11 C16 C04 C02
 //@   use parseFrame stmtResult ctxStable
 //@   ensures [dispatch@C02] ncalls("(*Parser).ParseLetStatement") == ite(old(p.CurrentToken.Type) == token.LET, 1, 0) && ncalls("(*Parser).ParseFunctionStatement") == ite(old(p.CurrentToken.Type) == token.FUNCTION, 1, 0) && ncalls("(*Parser).ParseReturnStatement") == ite(old(p.CurrentToken.Type) == token.RETURN, 1, 0) && ncalls("(*Parser).ParseIfStatement") == ite(old(p.CurrentToken.Type) == token.IF, 1, 0) && ncalls("(*Parser).ParseWhileStatement") == ite(old(p.CurrentToken.Type) == token.WHILE, 1, 0) && ncalls("(*Parser).ParseForStatement") == ite(old(p.CurrentToken.Type) == token.FOR, 1, 0) && ncalls("(*Parser).ParseBlockStatement") == ite(old(p.CurrentToken.Type) == token.LBRACE, 1, 0)
@@ -330,23 +330,23 @@ func lemma_parseFrame_trans(p *Parser) {
 //@   atcall * [dispatch.first@C02,C04] eq(p.CurrentToken, old(p.CurrentToken)) && eq(p.PeekToken, old(p.PeekToken))
 
 // The default expression step: one prefix parse, then the climbing loop at the requested binding power.
-//@ func baseParseExpression
+//@ func baseParseExpression(p, precedence)
 //@   props C11 C16 C04 C02
 //@   use parseFrame ctxStable
 //@   ensures [shape@C02,C04] ncalls("(*Parser).ParsePrefixExpression") == 1 && ncalls("(*Parser).ParseRemainingExpressionWithPrecedence") == 1 && callOrder("(*Parser).ParsePrefixExpression", 0, "(*Parser).ParseRemainingExpressionWithPrecedence", 0) && callArg[int]("(*Parser).ParseRemainingExpressionWithPrecedence", 0, 2) == precedence && callArg[ast.Expression]("(*Parser).ParseRemainingExpressionWithPrecedence", 0, 1) == callResult[ast.Expression]("(*Parser).ParsePrefixExpression", 0)
 //@   ensures [result@C02,C04] result == callResult[ast.Expression]("(*Parser).ParseRemainingExpressionWithPrecedence", 0)
 
-//@ func (p *Parser) ParseLetStatement
+//@ func (p *Parser) ParseLetStatement()
 //@   props C11 C16 C01
 //@   use parseFrame ctxStable
 //@   ensures [node@C01,C08,C15] implies(result != nil, eq(result.Token, old(p.CurrentToken)) && result.Name != nil && result.Name.Value == result.Name.Token.Literal)
 //@   ensures [err-on-nil] implies(result == nil, len(p.errors) > len(old(p.errors)))
 
-//@ func (p *Parser) ParseLetExpression
+//@ func (p *Parser) ParseLetExpression()
 //@   props C11 C16
 //@   use parseFrame ctxStable
 
-//@ func (p *Parser) ParseFunctionStatement
+//@ func (p *Parser) ParseFunctionStatement()
 //@   props C11 C16 C01
 //@   use parseFrame
 //@   ensures [node@C01,C08,C15] implies(result != nil, eq(result.Token, old(p.CurrentToken)) && result.Name != nil && result.Name.Value == result.Name.Token.Literal && result.Body == callResult[*ast.BlockStatement]("(*Parser).ParseBlockStatement", 0))
@@ -355,38 +355,38 @@ func lemma_parseFrame_trans(p *Parser) {
 //@   atcall (*Parser).ParseFunctionParameters [ctx.stable@C16] sameCtx(p.contextStack, old(p.contextStack))
 //@   ensures [err-on-nil] implies(result == nil, len(p.errors) > len(old(p.errors)))
 
-//@ func (p *Parser) ParseFunctionParameters
+//@ func (p *Parser) ParseFunctionParameters()
 //@   props C11 C16
 //@   use parseFrame ctxStable
 //@   loop 1 invariant [frame] parserInv(p) && sameCtx(p.contextStack, old(p.contextStack)) && p.currentExpressionPrecedence == old(p.currentExpressionPrecedence) && isPrefixErr(old(p.errors), p.errors)
 
 // Restricted production (ECMA-262 12.10.1): no operand is parsed when the next token is on a new line.
-//@ func (p *Parser) ParseReturnStatement
+//@ func (p *Parser) ParseReturnStatement()
 //@   props C11 C16 C02
 //@   use parseFrame ctxStable
 //@   ensures [restricted@C02] implies(old(p.PeekToken.AfterNewline), ncalls("(*Parser).ParseExpression") == 0)
 //@   ensures [operand@C02] implies(!old(p.PeekToken.AfterNewline) && old(p.PeekToken.Type) != token.SEMICOLON && old(p.PeekToken.Type) != token.EOF && old(p.PeekToken.Type) != token.RBRACE, ncalls("(*Parser).ParseExpression") == 1)
 //@   ensures [err-on-nil] implies(result == nil, len(p.errors) > len(old(p.errors)))
 
-//@ func (p *Parser) ParseIfStatement
+//@ func (p *Parser) ParseIfStatement()
 //@   props C11 C16 C01
 //@   use parseFrame ctxStable
 //@   ensures [node@C01,C08,C15] implies(result != nil, eq(result.Token, old(p.CurrentToken)))
 //@   ensures [err-on-nil] implies(result == nil, len(p.errors) > len(old(p.errors)))
 
-//@ func (p *Parser) ParseWhileStatement
+//@ func (p *Parser) ParseWhileStatement()
 //@   props C11 C16 C01
 //@   use parseFrame ctxStable
 //@   ensures [node@C01,C08,C15] implies(result != nil, eq(result.Token, old(p.CurrentToken)))
 //@   ensures [err-on-nil] implies(result == nil, len(p.errors) > len(old(p.errors)))
 
-//@ func (p *Parser) ParseForStatement
+//@ func (p *Parser) ParseForStatement()
 //@   props C11 C16 C01
 //@   use parseFrame ctxStable
 //@   ensures [node@C01,C08,C15] implies(result != nil, eq(result.Token, old(p.CurrentToken)))
 //@   ensures [err-on-nil] implies(result == nil, len(p.errors) > len(old(p.errors)))
 
-//@ func (p *Parser) ParseBlockStatement
+//@ func (p *Parser) ParseBlockStatement()
 //@   props C11 C16 C13 C01 C15
 //@   use parseFrame
 //@   atcall slotStmtFn [ctx.block@C16] sameCtx(p.contextStack, push(old(p.contextStack), BlockContext))
@@ -397,34 +397,34 @@ func lemma_parseFrame_trans(p *Parser) {
 //@   ensures [unclosed@C13,C11] ncalls("(*Parser).AddError") == ite(!p.tolerantMode && p.CurrentToken.Type != token.RBRACE, 1, 0)
 //@   ensures [rbrace@C01,C15] eq(result.RBrace, p.CurrentToken)
 
-//@ func (p *Parser) ParseStatement
+//@ func (p *Parser) ParseStatement()
 //@   props C11 C16
 //@   use parseFrame stmtResult ctxStable
 
-//@ func (p *Parser) ParseExpressionStatement
+//@ func (p *Parser) ParseExpressionStatement()
 //@   props C11 C16
 //@   use parseFrame ctxStable
 //@   ensures [err-on-nil] implies(result == nil, len(p.errors) > len(old(p.errors)))
 
-//@ func (p *Parser) ParsePrefixExpression
+//@ func (p *Parser) ParsePrefixExpression()
 //@   props C11 C16 C04 C02
 //@   use parseFrame ctxStable
 //@   ensures [unknown-prefix@C11] implies(!old(has(p.prefixParseFns, p.CurrentToken.Type)), isNil(result) && len(p.errors) == len(old(p.errors))+1)
 //@   ensures [dispatch@C02,C04] implies(old(has(p.prefixParseFns, p.CurrentToken.Type)) && ncalls("slotPrefixFn") == 1, result == callResult[ast.Expression]("slotPrefixFn", 0))
 //@   atcall slotPrefixFn [first-token@C04] eq(p.CurrentToken, old(p.CurrentToken)) && eq(p.PeekToken, old(p.PeekToken))
 
-//@ func (p *Parser) ParseInfixExpression
+//@ func (p *Parser) ParseInfixExpression(left)
 //@   props C11 C16 C02
 //@   use parseFrame ctxStable
 //@   ensures [no-infix@C02] implies(!old(has(p.infixParseFns, p.PeekToken.Type)), result == left && eq(p.PeekToken, old(p.PeekToken)))
 //@   atcall slotInfixFn [operator-current@C02] eq(p.CurrentToken, old(p.PeekToken)) && arg_left == left
 
-//@ func (p *Parser) ParseExpression
+//@ func (p *Parser) ParseExpression()
 //@   props C11 C16 C02
 //@   use parseFrame ctxStable
 //@   ensures [level@C02] ncalls("slotExprFn") == 1 && callArg[int]("slotExprFn", 0, 1) == LOWEST && callArg[*Parser]("slotExprFn", 0, 0) == p && result == callResult[ast.Expression]("slotExprFn", 0)
 
-//@ func (p *Parser) ParseExpressionWithPrecedence
+//@ func (p *Parser) ParseExpressionWithPrecedence(precedence)
 //@   props C11 C16 C02
 //@   use parseFrame ctxStable
 //@   ensures [level@C02] ncalls("slotExprFn") == 1 && callArg[int]("slotExprFn", 0, 1) == precedence && callArg[*Parser]("slotExprFn", 0, 0) == p && result == callResult[ast.Expression]("slotExprFn", 0)
@@ -432,7 +432,7 @@ func lemma_parseFrame_trans(p *Parser) {
 // The climbing loop. It continues only while the next token binds strictly tighter than the requested level (left
 // associativity), never past ';', never across a line break before '(' or '[' in smart-semicolon mode, never across a
 // line break before '++'/'--' (restricted production); it stops only when one of those conditions fails.
-//@ func (p *Parser) ParseRemainingExpressionWithPrecedence
+//@ func (p *Parser) ParseRemainingExpressionWithPrecedence(left, precedence)
 //@   props C11 C16 C13 C02
 //@   use parseFrame ctxStable
 //@   atcall (*Parser).ParseInfixExpression [climb.strict@C02] p.PeekToken.Type != token.SEMICOLON && precedence < specLevel(p.precedences, p.PeekToken.Type)
@@ -442,83 +442,83 @@ func lemma_parseFrame_trans(p *Parser) {
 //@   loop 1 invariant [frame] parserInv(p) && sameCtx(p.contextStack, old(p.contextStack)) && p.currentExpressionPrecedence == old(p.currentExpressionPrecedence) && isPrefixErr(old(p.errors), p.errors)
 
 // Re-entrant continuation for expression interceptors: the same loop, at the binding power the innermost wrapper published.
-//@ func (p *Parser) ParseRemainingExpression
+//@ func (p *Parser) ParseRemainingExpression(left)
 //@   props C11 C16 C04
 //@   use parseFrame ctxStable
 //@   ensures [same-level@C04] ncalls("(*Parser).ParseRemainingExpressionWithPrecedence") == 1 && callArg[int]("(*Parser).ParseRemainingExpressionWithPrecedence", 0, 2) == old(p.currentExpressionPrecedence) && callArg[ast.Expression]("(*Parser).ParseRemainingExpressionWithPrecedence", 0, 1) == left && result == callResult[ast.Expression]("(*Parser).ParseRemainingExpressionWithPrecedence", 0)
 
-//@ func (p *Parser) ParseIdentifier
+//@ func (p *Parser) ParseIdentifier()
 //@   props C11 C16 C01 C07
 //@   use parseFrame ctxStable exprResult
 //@   ensures [node@C01,C07,C08,C15] isType[*ast.Identifier](result) && !isNil(result) && eq(result.(*ast.Identifier).Token, old(p.CurrentToken)) && result.(*ast.Identifier).Value == old(p.CurrentToken.Literal)
 //@   ensures [no-token@C01] ncalls("(*Parser).NextToken") == 0 && lexer.LexPos(p.lexer) == old(lexer.LexPos(p.lexer))
 
-//@ func (p *Parser) ParseIntegerLiteral
+//@ func (p *Parser) ParseIntegerLiteral()
 //@   props C11 C16 C01 C07
 //@   use parseFrame ctxStable exprResult
 //@   ensures [node@C01,C07,C08,C15] implies(!isNil(result), isType[*ast.IntegerLiteral](result) && eq(result.(*ast.IntegerLiteral).Token, old(p.CurrentToken)))
 //@   ensures [no-token@C01] ncalls("(*Parser).NextToken") == 0 && lexer.LexPos(p.lexer) == old(lexer.LexPos(p.lexer))
 
-//@ func (p *Parser) ParseFloatLiteral
+//@ func (p *Parser) ParseFloatLiteral()
 //@   props C11 C16 C01 C07
 //@   use parseFrame ctxStable exprResult
 //@   ensures [node@C01,C07,C08,C15] implies(!isNil(result), isType[*ast.FloatLiteral](result) && eq(result.(*ast.FloatLiteral).Token, old(p.CurrentToken)))
 //@   ensures [no-token@C01] ncalls("(*Parser).NextToken") == 0 && lexer.LexPos(p.lexer) == old(lexer.LexPos(p.lexer))
 
-//@ func (p *Parser) ParseStringLiteral
+//@ func (p *Parser) ParseStringLiteral()
 //@   props C11 C16 C01 C07
 //@   use parseFrame ctxStable exprResult
 //@   ensures [node@C01,C07,C08,C15] isType[*ast.StringLiteral](result) && !isNil(result) && eq(result.(*ast.StringLiteral).Token, old(p.CurrentToken)) && result.(*ast.StringLiteral).Value == old(p.CurrentToken.Literal)
 //@   ensures [no-token@C01] ncalls("(*Parser).NextToken") == 0 && lexer.LexPos(p.lexer) == old(lexer.LexPos(p.lexer))
 
-//@ func (p *Parser) ParseMultiStringLiteral
+//@ func (p *Parser) ParseMultiStringLiteral()
 //@   props C11 C16 C01 C07
 //@   use parseFrame ctxStable exprResult
 //@   ensures [node@C01,C07,C08,C15] isType[*ast.MultiStringLiteral](result) && !isNil(result) && eq(result.(*ast.MultiStringLiteral).Token, old(p.CurrentToken)) && result.(*ast.MultiStringLiteral).Value == old(p.CurrentToken.Literal)
 //@   ensures [no-token@C01] ncalls("(*Parser).NextToken") == 0 && lexer.LexPos(p.lexer) == old(lexer.LexPos(p.lexer))
 
-//@ func (p *Parser) ParseBooleanLiteral
+//@ func (p *Parser) ParseBooleanLiteral()
 //@   props C11 C16 C01 C07
 //@   use parseFrame ctxStable exprResult
 //@   ensures [node@C01,C07,C08,C15] isType[*ast.BooleanLiteral](result) && !isNil(result) && eq(result.(*ast.BooleanLiteral).Token, old(p.CurrentToken)) && result.(*ast.BooleanLiteral).Value == (old(p.CurrentToken.Type) == token.TRUE)
 //@   ensures [no-token@C01] ncalls("(*Parser).NextToken") == 0 && lexer.LexPos(p.lexer) == old(lexer.LexPos(p.lexer))
 
-//@ func (p *Parser) ParseNullLiteral
+//@ func (p *Parser) ParseNullLiteral()
 //@   props C11 C16 C01 C07
 //@   use parseFrame ctxStable exprResult
 //@   ensures [node@C01,C07,C08,C15] isType[*ast.NullLiteral](result) && !isNil(result) && eq(result.(*ast.NullLiteral).Token, old(p.CurrentToken))
 //@   ensures [no-token@C01] ncalls("(*Parser).NextToken") == 0 && lexer.LexPos(p.lexer) == old(lexer.LexPos(p.lexer))
 
-//@ func (p *Parser) ParseUnaryExpression
+//@ func (p *Parser) ParseUnaryExpression()
 //@   props C11 C16 C02 C01
 //@   use parseFrame ctxStable exprResult
 //@   ensures [operand.level@C02] ncalls("(*Parser).NextToken") == 1 && ncalls("slotExprFn") == 1 && callOrder("(*Parser).NextToken", 0, "slotExprFn", 0) && callArg[int]("slotExprFn", 0, 1) == UNARY && callArg[*Parser]("slotExprFn", 0, 0) == p
 //@   ensures [node@C01,C08,C15] isType[*ast.UnaryExpression](result) && !isNil(result) && eq(result.(*ast.UnaryExpression).Token, old(p.CurrentToken)) && result.(*ast.UnaryExpression).Operator == old(p.CurrentToken.Literal) && result.(*ast.UnaryExpression).Right == callResult[ast.Expression]("slotExprFn", 0)
 
-//@ func (p *Parser) ParsePostfixExpression
+//@ func (p *Parser) ParsePostfixExpression(left)
 //@   props C11 C16 C01 C02
 //@   use parseFrame ctxStable exprResult
 //@   ensures [node@C01,C08,C15] isType[*ast.PostfixExpression](result) && !isNil(result) && eq(result.(*ast.PostfixExpression).Token, old(p.CurrentToken)) && result.(*ast.PostfixExpression).Operator == old(p.CurrentToken.Literal) && result.(*ast.PostfixExpression).Left == left
 //@   ensures [no-token@C02] ncalls("(*Parser).NextToken") == 0 && ncalls("slotExprFn") == 0 && lexer.LexPos(p.lexer) == old(lexer.LexPos(p.lexer))
 
-//@ func (p *Parser) ParseGroupedExpression
+//@ func (p *Parser) ParseGroupedExpression()
 //@   props C11 C16 C01 C02
 //@   use parseFrame ctxStable exprResult
 //@   ensures [inner.level@C02] ncalls("(*Parser).ParseExpression") == 1 && ncalls("slotExprFn") == 0
 //@   ensures [node@C01,C08,C15] implies(!isNil(result), isType[*ast.GroupedExpression](result) && eq(result.(*ast.GroupedExpression).Token, old(p.CurrentToken)) && result.(*ast.GroupedExpression).Expression == callResult[ast.Expression]("(*Parser).ParseExpression", 0) && eq(result.(*ast.GroupedExpression).RParen, p.CurrentToken) && p.CurrentToken.Type == token.RPAREN)
 
-//@ func (p *Parser) ParseArrayLiteral
+//@ func (p *Parser) ParseArrayLiteral()
 //@   props C11 C16 C01
 //@   use parseFrame ctxStable exprResult
 //@   ensures [node@C01,C08,C15] isType[*ast.ArrayLiteral](result) && !isNil(result) && eq(result.(*ast.ArrayLiteral).Token, old(p.CurrentToken)) && eq(result.(*ast.ArrayLiteral).RBracket, p.CurrentToken)
 
-//@ func (p *Parser) ParseObjectLiteral
+//@ func (p *Parser) ParseObjectLiteral()
 //@   props C11 C16 C01
 //@   use parseFrame ctxStable exprResult
 //@   ensures [node@C01,C08,C15] implies(!isNil(result), isType[*ast.ObjectLiteral](result) && eq(result.(*ast.ObjectLiteral).Token, old(p.CurrentToken)))
 //@   loop 1 invariant [frame] parserInv(p) && sameCtx(p.contextStack, old(p.contextStack)) && p.currentExpressionPrecedence == old(p.currentExpressionPrecedence) && isPrefixErr(old(p.errors), p.errors) && obj != nil
 
-//@ func (p *Parser) ParseFunctionExpression
+//@ func (p *Parser) ParseFunctionExpression()
 //@   props C11 C16 C13 C01
 //@   use parseFrame exprResult
 //@   ensures [node@C01,C08,C15] implies(!isNil(result), isType[*ast.FunctionExpression](result) && eq(result.(*ast.FunctionExpression).Token, old(p.CurrentToken)) && result.(*ast.FunctionExpression).Body == callResult[*ast.BlockStatement]("(*Parser).ParseBlockStatement", 0))
@@ -528,49 +528,49 @@ func lemma_parseFrame_trans(p *Parser) {
 
 // Binary operators are left associative: the right operand is parsed at the operator's own level, read from the
 // per-parser table while the operator is the current token.
-//@ func (p *Parser) ParseBinaryExpression
+//@ func (p *Parser) ParseBinaryExpression(left)
 //@   props C11 C16 C02 C01 C05
 //@   use parseFrame ctxStable exprResult
 //@   ensures [operand.level@C02,C03,C05] ncalls("(*Parser).NextToken") == 1 && ncalls("slotExprFn") == 1 && callOrder("(*Parser).NextToken", 0, "slotExprFn", 0) && callArg[int]("slotExprFn", 0, 1) == specLevel(p.precedences, old(p.CurrentToken.Type)) && callArg[*Parser]("slotExprFn", 0, 0) == p
 //@   ensures [node@C01,C08,C15] isType[*ast.BinaryExpression](result) && !isNil(result) && eq(result.(*ast.BinaryExpression).Token, old(p.CurrentToken)) && result.(*ast.BinaryExpression).Operator == old(p.CurrentToken.Literal) && result.(*ast.BinaryExpression).Left == left && result.(*ast.BinaryExpression).Right == callResult[ast.Expression]("slotExprFn", 0)
 
 // Assignment is right associative: the value is parsed from the lowest level again.
-//@ func (p *Parser) ParseAssignmentExpression
+//@ func (p *Parser) ParseAssignmentExpression(left)
 //@   props C11 C16 C02 C01
 //@   use parseFrame ctxStable exprResult
 //@   ensures [operand.level@C02,C03] ncalls("(*Parser).NextToken") == 1 && ncalls("(*Parser).ParseExpression") == 1 && ncalls("slotExprFn") == 0 && callOrder("(*Parser).NextToken", 0, "(*Parser).ParseExpression", 0)
 //@   ensures [node@C01,C08,C15] isType[*ast.AssignmentExpression](result) && !isNil(result) && eq(result.(*ast.AssignmentExpression).Token, old(p.CurrentToken)) && result.(*ast.AssignmentExpression).Left == left && result.(*ast.AssignmentExpression).Value == callResult[ast.Expression]("(*Parser).ParseExpression", 0)
 
-//@ func (p *Parser) ParseCompoundAssignmentExpression
+//@ func (p *Parser) ParseCompoundAssignmentExpression(left)
 //@   props C11 C16 C02 C01
 //@   use parseFrame ctxStable exprResult
 //@   ensures [operand.level@C02,C03] ncalls("(*Parser).NextToken") == 1 && ncalls("(*Parser).ParseExpression") == 1 && ncalls("slotExprFn") == 0 && callOrder("(*Parser).NextToken", 0, "(*Parser).ParseExpression", 0)
 //@   ensures [node@C01,C08,C15] isType[*ast.CompoundAssignmentExpression](result) && !isNil(result) && eq(result.(*ast.CompoundAssignmentExpression).Token, old(p.CurrentToken)) && result.(*ast.CompoundAssignmentExpression).Left == left && result.(*ast.CompoundAssignmentExpression).Value == callResult[ast.Expression]("(*Parser).ParseExpression", 0)
 //@   ensures [operator@C01] implies(old(p.CurrentToken.Type) == token.PLUS_ASSIGN, result.(*ast.CompoundAssignmentExpression).Operator == "+") && implies(old(p.CurrentToken.Type) == token.MINUS_ASSIGN, result.(*ast.CompoundAssignmentExpression).Operator == "-")
 
-//@ func (p *Parser) ParseCallExpression
+//@ func (p *Parser) ParseCallExpression(fn)
 //@   props C11 C16 C01
 //@   use parseFrame ctxStable exprResult
 //@   ensures [node@C01,C08,C15] isType[*ast.CallExpression](result) && !isNil(result) && eq(result.(*ast.CallExpression).Token, old(p.CurrentToken)) && result.(*ast.CallExpression).Function == fn
 
-//@ func (p *Parser) ParseMemberExpression
+//@ func (p *Parser) ParseMemberExpression(left)
 //@   props C11 C16 C02 C01
 //@   use parseFrame ctxStable exprResult
 //@   ensures [operand.level@C02] ncalls("(*Parser).NextToken") == 1 && ncalls("slotExprFn") == 1 && callOrder("(*Parser).NextToken", 0, "slotExprFn", 0) && callArg[int]("slotExprFn", 0, 1) == MEMBER && callArg[*Parser]("slotExprFn", 0, 0) == p
 //@   ensures [node@C01,C08,C15] isType[*ast.MemberExpression](result) && !isNil(result) && eq(result.(*ast.MemberExpression).Token, old(p.CurrentToken)) && result.(*ast.MemberExpression).Object == left && !result.(*ast.MemberExpression).Computed && result.(*ast.MemberExpression).Property == callResult[ast.Expression]("slotExprFn", 0)
 
-//@ func (p *Parser) ParseComputedMemberExpression
+//@ func (p *Parser) ParseComputedMemberExpression(left)
 //@   props C11 C16 C02 C01
 //@   use parseFrame ctxStable exprResult
 //@   ensures [operand.level@C02] ncalls("(*Parser).ParseExpression") == 1 && ncalls("slotExprFn") == 0
 //@   ensures [node@C01,C08,C15] implies(!isNil(result), isType[*ast.MemberExpression](result) && eq(result.(*ast.MemberExpression).Token, old(p.CurrentToken)) && result.(*ast.MemberExpression).Object == left && result.(*ast.MemberExpression).Computed && result.(*ast.MemberExpression).Property == callResult[ast.Expression]("(*Parser).ParseExpression", 0))
 
-//@ func (p *Parser) ParseExpressionList
+//@ func (p *Parser) ParseExpressionList(end)
 //@   props C11 C16
 //@   use parseFrame ctxStable
 //@   loop 1 invariant [frame] parserInv(p) && sameCtx(p.contextStack, old(p.contextStack)) && p.currentExpressionPrecedence == old(p.currentExpressionPrecedence) && isPrefixErr(old(p.errors), p.errors)
 
-//@ func (p *Parser) ParseProgram
+//@ func (p *Parser) ParseProgram()
 //@   props C11 C16
 //@   use parseFrame
 //@   atcall slotStmtFn [ctx.stable@C16] sameCtx(p.contextStack, old(p.contextStack))
@@ -582,12 +582,12 @@ func lemma_parseFrame_trans(p *Parser) {
 
 // ---- binding powers ----
 
-//@ func (p *Parser) peekPrecedence
+//@ func (p *Parser) peekPrecedence()
 //@   props C02 C05 C11
 //@   requires [table] p.precedences != nil
 //@   ensures [level] result == specLevel(p.precedences, p.PeekToken.Type)
 
-//@ func (p *Parser) currentPrecedence
+//@ func (p *Parser) currentPrecedence()
 //@   props C02 C05 C11
 //@   requires [table] p.precedences != nil
 //@   ensures [level] result == specLevel(p.precedences, p.CurrentToken.Type)
@@ -596,7 +596,7 @@ func lemma_parseFrame_trans(p *Parser) {
 
 // Installing an interceptor wraps the chain built so far: the new statement function is the wrapper literal, closed
 // over exactly this interceptor and the previous statement function.
-//@ func (p *Parser) useStatementInterceptor
+//@ func (p *Parser) useStatementInterceptor(interceptor)
 //@   props C04 C14
 //@   funcvar interceptor passthrough
 //@   modifies p.statementParseFn
@@ -604,7 +604,7 @@ func lemma_parseFrame_trans(p *Parser) {
 
 // The wrapper calls the interceptor exactly once, handing it a thunk that calls the rest of the chain exactly once on
 // the same parser, and returns what the interceptor returns.
-//@ func (p *Parser) useStatementInterceptor$1
+//@ func (p *Parser) useStatementInterceptor$1(p)
 //@   props C04 C11 C16
 //@   use parseFrame stmtResult
 //@   funcvar interceptor passthrough
@@ -614,7 +614,7 @@ func lemma_parseFrame_trans(p *Parser) {
 //@   ensures [result@C04] result == callResult[ast.Statement]("slotStmtFn", 0)
 //@   atcall slotStmtFn [untouched@C04] eq(p.CurrentToken, old(p.CurrentToken)) && eq(p.PeekToken, old(p.PeekToken)) && lexer.LexPos(p.lexer) == old(lexer.LexPos(p.lexer)) && len(p.errors) == len(old(p.errors)) && sameCtx(p.contextStack, old(p.contextStack))
 
-//@ func (p *Parser) useExpressionInterceptor
+//@ func (p *Parser) useExpressionInterceptor(interceptor)
 //@   props C04 C14
 //@   funcvar interceptor passthrough
 //@   modifies p.expressionParseFn
@@ -622,7 +622,7 @@ func lemma_parseFrame_trans(p *Parser) {
 
 // The expression wrapper additionally publishes the binding power of the step in currentExpressionPrecedence while the
 // interceptor runs and restores the previous value on every exit.
-//@ func (p *Parser) useExpressionInterceptor$1
+//@ func (p *Parser) useExpressionInterceptor$1(p, precedence)
 //@   props C04 C11 C16
 //@   use parseFrame
 //@   funcvar interceptor passthrough
@@ -636,7 +636,7 @@ func lemma_parseFrame_trans(p *Parser) {
 
 // ---- registered operators (C05) ----
 
-//@ func (p *Parser) registerPrefixOperator
+//@ func (p *Parser) registerPrefixOperator(tokenType, createExpr)
 //@   props C05 C14
 //@   requires [tables] p.prefixParseFns != nil
 //@   funcvar createExpr callback
@@ -644,7 +644,7 @@ func lemma_parseFrame_trans(p *Parser) {
 //@   ensures [entry] has(p.prefixParseFns, tokenType)
 //@   ensures [others] forallKeys(old(p.prefixParseFns), func(t token.Type) bool { return has(p.prefixParseFns, t) })
 
-//@ func (p *Parser) registerPrefixOperator$1
+//@ func (p *Parser) registerPrefixOperator$1()
 //@   props C05 C11 C16
 //@   use parseFrame
 //@   funcvar createExpr callback
@@ -652,13 +652,13 @@ func lemma_parseFrame_trans(p *Parser) {
 
 // The operand thunk of a registered prefix operator parses exactly like the built-in unary operators: advance one token,
 // then parse an expression at UNARY level.
-//@ func (p *Parser) registerPrefixOperator$1$1
+//@ func (p *Parser) registerPrefixOperator$1$1()
 //@   props C05 C11 C16
 //@   use parseFrame
 //@   ensures [operand@C05] ncalls("(*Parser).NextToken") == 1 && ncalls("slotExprFn") == 1 && callOrder("(*Parser).NextToken", 0, "slotExprFn", 0) && callArg[int]("slotExprFn", 0, 1) == UNARY && callArg[*Parser]("slotExprFn", 0, 0) == p
 //@   ensures [result@C05] result == callResult[ast.Expression]("slotExprFn", 0)
 
-//@ func (p *Parser) registerInfixOperator
+//@ func (p *Parser) registerInfixOperator(tokenType, precedence, createExpr)
 //@   props C05 C14
 //@   requires [tables] p.infixParseFns != nil && p.precedences != nil
 //@   funcvar createExpr callback
@@ -669,7 +669,7 @@ func lemma_parseFrame_trans(p *Parser) {
 //@   ensures [entry] has(p.infixParseFns, tokenType)
 //@   ensures [fns.others] forallKeys(old(p.infixParseFns), func(t token.Type) bool { return has(p.infixParseFns, t) })
 
-//@ func (p *Parser) registerInfixOperator$1
+//@ func (p *Parser) registerInfixOperator$1(left)
 //@   props C05 C11 C16
 //@   use parseFrame
 //@   funcvar createExpr callback
@@ -677,13 +677,13 @@ func lemma_parseFrame_trans(p *Parser) {
 
 // The operand thunk of a registered infix operator parses its right operand exactly like ParseBinaryExpression: at the
 // operator's own level, read from the per-parser table while the operator is the current token.
-//@ func (p *Parser) registerInfixOperator$1$1
+//@ func (p *Parser) registerInfixOperator$1$1()
 //@   props C05 C11 C16
 //@   use parseFrame
 //@   ensures [operand@C05] ncalls("(*Parser).NextToken") == 1 && ncalls("slotExprFn") == 1 && callOrder("(*Parser).NextToken", 0, "slotExprFn", 0) && callArg[int]("slotExprFn", 0, 1) == specLevel(p.precedences, old(p.CurrentToken.Type)) && callArg[*Parser]("slotExprFn", 0, 0) == p
 //@   ensures [result@C05] result == callResult[ast.Expression]("slotExprFn", 0)
 
-//@ func (p *Parser) registerPostfixOperator
+//@ func (p *Parser) registerPostfixOperator(tokenType, createExpr)
 //@   props C05 C14
 //@   requires [tables] p.infixParseFns != nil && p.precedences != nil
 //@   funcvar createExpr callback
@@ -695,7 +695,7 @@ func lemma_parseFrame_trans(p *Parser) {
 //@   ensures [fns.others] forallKeys(old(p.infixParseFns), func(t token.Type) bool { return has(p.infixParseFns, t) })
 
 // A registered postfix operator consumes no token itself (a call-level suffix).
-//@ func (p *Parser) registerPostfixOperator$1
+//@ func (p *Parser) registerPostfixOperator$1(left)
 //@   props C05 C11 C16
 //@   use parseFrame
 //@   funcvar createExpr callback
@@ -716,7 +716,7 @@ func tablesSeeded(p *Parser) bool {
 	return forallKeys(precedences, func(t token.Type) bool { return has(p.precedences, t) })
 }
 
-//@ func newWithOptions
+//@ func newWithOptions(l, opts)
 //@   props C04 C05 C11 C13 C14 C16
 //@   requires [lexer] l != nil && lexer.LexInv(l)
 //@   modifies l.position, l.readPosition, l.CurrentChar, l.Line, l.Column, l.hadNewlineBefore, l.leadingComments
@@ -743,7 +743,7 @@ func tablesSeeded(p *Parser) bool {
 //@   ensures [clean@C11] len(result.errors) == 0 && result.currentExpressionPrecedence == 0
 //@   ensures [modes@C13] result.tolerantMode == opts.tolerantMode && result.smartSemicolons == opts.smartSemicolons
 
-//@ func NewBuilder
+//@ func NewBuilder(lb)
 //@   props C05 C14
 //@   loop 1 invariant [seed] registeredInfixOps != nil && fresh(registeredInfixOps) && forallKeys(registeredInfixOps, func(t token.Type) bool { return seen(t) }) && forallKeys(precedences, func(t token.Type) bool { return implies(seen(t), has(registeredInfixOps, t)) })
 //@   ensures [fresh@C14] result != nil && fresh(result) && fresh(result.registeredInfixOps) && fresh(result.registeredPrefixOps) && fresh(result.registeredPostfixOps)
@@ -758,19 +758,19 @@ func builderInv(pb *Builder) bool {
 	return pb.registeredPrefixOps != nil && pb.registeredInfixOps != nil && pb.registeredPostfixOps != nil
 }
 
-//@ func (pb *Builder) UseStatementInterceptor
+//@ func (pb *Builder) UseStatementInterceptor(interceptor)
 //@   props C04 C14
 //@   modifies pb.stmtInterceptors
 //@   ensures [append@C04] len(pb.stmtInterceptors) == len(old(pb.stmtInterceptors))+1 && forall(0, len(old(pb.stmtInterceptors)), func(i int) bool { return eq(pb.stmtInterceptors[i], old(pb.stmtInterceptors)[i]) }) && eq(pb.stmtInterceptors[len(old(pb.stmtInterceptors))], interceptor)
 //@   ensures [self] result == pb
 
-//@ func (pb *Builder) UseExpressionInterceptor
+//@ func (pb *Builder) UseExpressionInterceptor(interceptor)
 //@   props C04 C14
 //@   modifies pb.expInterceptors
 //@   ensures [append@C04] len(pb.expInterceptors) == len(old(pb.expInterceptors))+1 && forall(0, len(old(pb.expInterceptors)), func(i int) bool { return eq(pb.expInterceptors[i], old(pb.expInterceptors)[i]) }) && eq(pb.expInterceptors[len(old(pb.expInterceptors))], interceptor)
 //@   ensures [self] result == pb
 
-//@ func (pb *Builder) RegisterPrefixOperator
+//@ func (pb *Builder) RegisterPrefixOperator(tokenType, createExpr)
 //@   props C05 C14
 //@   requires [inv] builderInv(pb)
 //@   modifies pb.prefixOperators, pb.registeredPrefixOps[*]
@@ -780,7 +780,7 @@ func builderInv(pb *Builder) bool {
 //@   ensures [new.recorded@C05] implies(result == nil, len(pb.prefixOperators) == len(old(pb.prefixOperators))+1 && pb.prefixOperators[len(old(pb.prefixOperators))].tokenType == tokenType && eq(pb.prefixOperators[len(old(pb.prefixOperators))].createExpr, createExpr) && forall(0, len(old(pb.prefixOperators)), func(i int) bool { return eq(pb.prefixOperators[i], old(pb.prefixOperators)[i]) }) && has(pb.registeredPrefixOps, tokenType) && pb.registeredPrefixOps[tokenType])
 //@   ensures [new.others@C05] forallKeys(old(pb.registeredPrefixOps), func(t token.Type) bool { return t == tokenType || (has(pb.registeredPrefixOps, t) && pb.registeredPrefixOps[t] == old(pb.registeredPrefixOps)[t]) })
 
-//@ func (pb *Builder) RegisterInfixOperator
+//@ func (pb *Builder) RegisterInfixOperator(tokenType, precedence, createExpr)
 //@   props C05 C14
 //@   requires [inv] builderInv(pb)
 //@   modifies pb.infixOperators, pb.registeredInfixOps[*]
@@ -790,7 +790,7 @@ func builderInv(pb *Builder) bool {
 //@   ensures [new.recorded@C05] implies(result == nil, len(pb.infixOperators) == len(old(pb.infixOperators))+1 && pb.infixOperators[len(old(pb.infixOperators))].tokenType == tokenType && pb.infixOperators[len(old(pb.infixOperators))].precedence == precedence && eq(pb.infixOperators[len(old(pb.infixOperators))].createExpr, createExpr) && forall(0, len(old(pb.infixOperators)), func(i int) bool { return eq(pb.infixOperators[i], old(pb.infixOperators)[i]) }) && has(pb.registeredInfixOps, tokenType) && pb.registeredInfixOps[tokenType])
 //@   ensures [new.others@C05] forallKeys(old(pb.registeredInfixOps), func(t token.Type) bool { return t == tokenType || (has(pb.registeredInfixOps, t) && pb.registeredInfixOps[t] == old(pb.registeredInfixOps)[t]) })
 
-//@ func (pb *Builder) RegisterPostfixOperator
+//@ func (pb *Builder) RegisterPostfixOperator(tokenType, createExpr)
 //@   props C05 C14
 //@   requires [inv] builderInv(pb)
 //@   modifies pb.postfixOperators, pb.registeredPostfixOps[*]
@@ -800,18 +800,18 @@ func builderInv(pb *Builder) bool {
 //@   ensures [new.recorded@C05] implies(result == nil, len(pb.postfixOperators) == len(old(pb.postfixOperators))+1 && pb.postfixOperators[len(old(pb.postfixOperators))].tokenType == tokenType && eq(pb.postfixOperators[len(old(pb.postfixOperators))].createExpr, createExpr) && forall(0, len(old(pb.postfixOperators)), func(i int) bool { return eq(pb.postfixOperators[i], old(pb.postfixOperators)[i]) }) && has(pb.registeredPostfixOps, tokenType) && pb.registeredPostfixOps[tokenType])
 //@   ensures [new.others@C05] forallKeys(old(pb.registeredPostfixOps), func(t token.Type) bool { return t == tokenType || (has(pb.registeredPostfixOps, t) && pb.registeredPostfixOps[t] == old(pb.registeredPostfixOps)[t]) })
 
-//@ func (pb *Builder) WithSmartSemicolon
+//@ func (pb *Builder) WithSmartSemicolon(enabled)
 //@   props C13 C14
 //@   modifies pb.smartSemicolons
 //@   ensures [set@C13] pb.smartSemicolons == enabled && result == pb
 
-//@ func (pb *Builder) WithTolerantMode
+//@ func (pb *Builder) WithTolerantMode(enabled)
 //@   props C13 C14
 //@   modifies pb.tolerantMode
 //@   ensures [set@C13] pb.tolerantMode == enabled && result == pb
 
 // Build does not modify the builder (one builder, many independent parsers) and hands the builder's settings over unchanged.
-//@ func (pb *Builder) Build
+//@ func (pb *Builder) Build(input)
 //@   props C04 C05 C13 C14 C16 C11
 //@   requires [lexer] pb.LexerBuilder != nil
 //@   ensures [inv@C11] result != nil && parserInv(result)
